@@ -295,3 +295,19 @@ def run_walks(graph: Graph, init_state, adapter: Adapter, run, walks, *, nproc=N
                 key = adapter.finding_key(status, {"from": json.loads(cur), "label": json.loads(lab), **detail})
                 run.fail(key, detail, what=f"{status} at {lab} (planned walk, step {done + 1})")
     return {"walks": len(walks), "steps_checked": steps, "mismatches": mism}
+
+
+
+def replay_detail(adapter: Adapter, detail):
+    """Re-execute a recorded mismatch (path + label) on a fresh real object; used by `./check <ID> --replay`."""
+    ctx = adapter.fresh(detail.get("variant", adapter.variants[0]) if detail.get("variant") in adapter.variants else adapter.variants[0])
+    try:
+        for step in detail.get("path", []):
+            act, args = (step if isinstance(step, list) else json.loads(step))
+            adapter.apply(ctx, act, args)
+        ret = adapter.apply(ctx, detail["act"], detail["args"])
+        obs = adapter.project(ctx)
+        ok = any(skey(a["to"]) == skey(obs) and adapter.ret_matches(a.get("ret"), ret) for a in detail.get("allowed", []))
+        return {"observed": obs, "ret": ret, "reproduced": not ok}
+    finally:
+        adapter.cleanup(ctx)
